@@ -178,8 +178,65 @@ def Ctx.meAnnounce (c : Ctx) (t : Topic) : Ctx × Topic :=
   if t.loaded then (c, t) else
   let t := { t with loaded := true }
   let (c, ok) := c.call "SubsForUser"
-  let t := if ok then { t with perSubs := c.w.contactsOf t.name } else t
+  -- loadContacts adds to the table (an entry made by an earlier notification is kept unless the store lists the contact)
+  let t := if ok then { t with perSubs := (c.w.contactsOf t.name).foldl (fun acc (n, v) => psSet acc n v) t.perSubs } else t
   c.presUsersOfInterest t "on"
+
+def effUpdateMeSub (u : Uid) (f : SubRow → SubRow) (w : World) : World :=
+  { w with meSubs := w.meSubs.map (fun s => if s.user = u then f s else s) }
+
+/-- evictUser on `me`: every session attached to the topic is the user's; all are detached and told (205) -/
+def Ctx.evictMe (c : Ctx) (t : Topic) (u : Uid) (skip : Sid) : Ctx × Topic :=
+  let t := match t.pud? u with | some p => t.setPud u { p with online := 0 } | none => t
+  let gone := t.sessions.filter (·.2 = u)
+  let t := { t with sessions := t.sessions.filter (·.2 ≠ u) }
+  let c := gone.foldl (fun c (sid, _) =>
+    let c := { c with w := c.w.detach sid t.name }
+    if sid ≠ skip then c.emit sid (ctrl 205 t.name " unsub=false") else c) c
+  (c, t)
+
+/-- thisUserSub on `me` for a user whose subscription is cached (topic.go:1651-1900 with t.cat = TopicCatMe): the checks and the
+default of an un-self-ban are those of every topic (`selfModeCheck`, `selfWant`; a `me` topic has no owner); losing P makes the
+user invisible - the contacts are told "off+dis" -, getting it back announces the user again ("on+en"); the user's other sessions
+on `me` see the change; a mode without J detaches every session from `me`. `none` = refused, a reply has been queued. -/
+def Ctx.thisUserSubMe (c : Ctx) (t : Topic) (a : Actor) (modeWant0 : Mode) : Ctx × Topic × Option (Option (Mode × Mode)) :=
+  let tn := t.name
+  let ud0 := t.pud a.uid
+  let oldWant := ud0.want
+  let oldGiven := ud0.given
+  -- (the branch by which an administrator of a group raises the own grant does not apply: `me` is not a group)
+  let chk : Except Unit (PUD × Mode × Bool) :=
+    if isOwner ud0.given then selfModeCheck t.owner a.uid ud0 modeWant0
+    else if modeWant0 ≠ modeUnset ∧ isOwner modeWant0 then .error ()
+    else .ok (ud0, modeWant0, false)
+  match chk with
+  | .error _ => (c.emit a.sid (ctrl 403 tn), t, none)
+  | .ok (ud, modeWant, _) =>
+  let ud := selfWant t.owner a.uid (accessForMe t a.lvl) ud oldWant modeWant
+  let (c, ok) := if ud.want ≠ oldWant ∨ ud.given ≠ oldGiven then
+      c.call "SubsUpdate" (effUpdateMeSub a.uid (fun s =>
+        let s := if ud.want ≠ oldWant then { s with want := ud.want } else s
+        if ud.given ≠ oldGiven then { s with given := ud.given } else s))
+    else (c, true)
+  if !ok then (c.emit a.sid (ctrl 500 tn), t, none) else
+  -- going invisible, before the new mode is applied
+  let (c, t) := if isPresencer (oldWant &&& oldGiven) ∧ !isPresencer (eff ud) then c.presUsersOfInterest t "off" "dis" else (c, t)
+  let t := t.setPud a.uid ud
+  let changed := oldWant ≠ ud.want ∨ oldGiven ≠ ud.given
+  let (c, t) := if changed then
+      -- notifySubChange on `me`: visible again → "on+en"; the user's other sessions attached to `me` see the new mode
+      let (c, t) := if hearsPres (eff ud) ∧ !hearsPres (oldWant &&& oldGiven) then c.presUsersOfInterest t "on" "en" else (c, t)
+      let dWant := String.ofList (notifyStr oldWant ud.want)
+      let dGiven := String.ofList (notifyStr oldGiven ud.given)
+      let acs := if dWant ≠ "" ∨ dGiven ≠ "" then s!" dacs={if dWant.isEmpty then "_" else dWant}/{if dGiven.isEmpty then "_" else dGiven}" else ""
+      (c.presDirect t { what := "acs", src := "", extra := acs, singleUser := a.uid, skipSid := a.sid }, t)
+    else (c, t)
+  let mc := if changed then some (ud.want, ud.given) else none
+  if !isJoiner ud.want then
+    let (c, t) := c.evictMe t a.uid ""
+    (c, t, some mc)
+  else if !isJoiner ud.given then (c.emit a.sid (ctrl 403 tn), t, none)
+  else (c, t, some mc)
 
 def Ctx.opSubMe (c : Ctx) (a : Actor) : Ctx :=
   let tn := a.uid
@@ -193,7 +250,10 @@ def Ctx.opSubMe (c : Ctx) (a : Actor) : Ctx :=
     -- thisUserSub on `me`, without a requested mode
     let r : Ctx × Option (Topic × Option (Mode × Mode)) :=
       match t.pud? a.uid with
-      | some _ => (c, some (t, none))
+      | some _ =>
+        (match c.thisUserSubMe t a modeUnset with
+          | (c, _, none) => (c, none)
+          | (c, t, some mc) => (c, some (t, mc)))
       | none =>
         let (c, ok) := c.call "SubscriptionGet"
         if !ok then (c.emit a.sid (ctrl 500 tn), none) else
@@ -307,6 +367,42 @@ def Ctx.opGetMeDesc (c : Ctx) (a : Actor) : Ctx :=
     let pud := t.pud a.uid
     let nums := if isReader (eff pud) then s!"seq=0 read={pud.readId} recv={max pud.recvId pud.readId} del={max pud.delId t.delId}" else "seq=0 read=0 recv=0 del=0"
     c.emit a.sid s!"meta {tn} desc[acs={acsStr pud.want pud.given} {nums} pub={showTok t.pub} tr=- priv={showTok pud.priv} defacs={showMode t.auth}/{showMode t.anon}]"
+
+/-- {set sub} on `me`: the user's own requested mode; from a session which is not attached, straight to the stored subscription
+(replyOfflineTopicSetSub) -/
+def Ctx.opSetSubMe (c : Ctx) (a : Actor) (target : Uid) (mode : String) : Ctx :=
+  let tn := a.uid
+  if !c.w.attached a.sid tn then
+    if mode = "" then c.emit a.sid (ctrl 304 tn) else
+    if target ≠ "" ∧ target ≠ a.uid then c.emit a.sid (ctrl 403 tn) else
+    let (c, ok) := c.call "SubscriptionGet"
+    if !ok then c.emit a.sid (ctrl 500 tn) else
+    match c.w.meSubs.find? (fun s => s.user = a.uid ∧ !s.deleted) with
+    | none => c.emit a.sid (ctrl 404 tn)
+    | some s =>
+      match unmarshal 0 mode.toList with
+      | .error _ => c.emit a.sid (ctrl 500 tn)
+      | .ok mw =>
+        if isOwner mw ≠ isOwner s.want then c.emit a.sid (ctrl 403 tn)
+        else if mw = s.want then c.emit a.sid (ctrl 304 tn)
+        else
+          let (c, ok) := c.call "SubsUpdate" (effUpdateMeSub a.uid (fun r => { r with want := mw }))
+          if !ok then c.emit a.sid (ctrl 500 tn) else c.emit a.sid (ctrl 200 tn s!" acs={acsStr mw s.given}")
+  else
+  match c.w.live? tn with
+  | none => c
+  | some t =>
+    if target ≠ "" ∧ target ≠ a.uid then c.emit a.sid (ctrl 403 tn) else      -- nobody else is ever subscribed to a `me` topic
+    match (if mode = "" then Except.ok modeUnset else unmarshal modeUnset mode.toList) with
+    | .error _ => c.emit a.sid (ctrl 400 tn)
+    | .ok modeWant0 =>
+      match c.thisUserSubMe t a modeWant0 with
+      | (c, t, none) => c.putLive t
+      | (c, t, some mc) =>
+        let c := match mc with
+          | some (w, g) => c.emit a.sid (ctrl 200 tn s!" acs={acsStr w g}")
+          | none => c.emit a.sid (ctrl 304 tn)
+        c.putLive t
 
 /-- the user's subscriptions as `store.Users.GetTopics` returns them: every live subscription, a p2p topic under the other user's
 name, a channel under the `chn` spelling -/
